@@ -91,7 +91,8 @@ public:
   }
 
   const ValueT& at(const KeyT& k) const {
-    Item& item = this->items.at(k);
+    // A lookup refreshes recency even on a const map (the links are mutable)
+    Item& item = const_cast<Item&>(this->items.at(k));
     this->touch_item(item);
     return item.value;
   }
